@@ -30,6 +30,8 @@ pub struct PubSub {
     pub close: bool,
     /// publisher scripts use all 8 frame kinds instead of plain messages
     pub hostile: bool,
+    /// the scheduler may register the sockets in any order
+    pub any_order: bool,
 }
 
 impl PubSub {
@@ -44,6 +46,7 @@ impl PubSub {
             "faults": self.faults,
             "close": self.close,
             "hostile_frames": self.hostile,
+            "any_registration_order": self.any_order,
         })
     }
 
@@ -135,6 +138,9 @@ impl<'s> Env for PsEnv<'s> {
     }
     fn allow_close(&self) -> bool {
         self.scn.close
+    }
+    fn any_order(&self) -> bool {
+        self.scn.any_order
     }
 }
 
